@@ -21,14 +21,14 @@ func init() {
 			"Softmax along a dimension of size > 1 goes through an implicit expansion of its normaliser: a failing case is attributed to the recorded finding only if EVERY gradient equals the reference tape run with BroadcastRule=Avg; size-1 Softmax and all other activations have no expansion and must match exactly. " +
 			"Non-trivial: >= 2 elements or an upstream program; distinct = (activation, config, shape, value class, variant).",
 		Assumptions: []string{"gradient comparison: |r-e| <= 1e-10*(1+max|e|) + 1e-9*max(|r|,|e|)"},
-		FloorQuick:  1500, FloorThor: 8000,
+		FloorQuick:  5000, FloorThor: 40000,
 		Run: runC15,
 	})
 }
 
 func runC15(c *fw.Ctx) {
 	// ---- (i) leaf inputs ----
-	for _, shape := range Shapes(0, c.Pick(3, 5), 3) {
+	for _, shape := range Shapes(0, c.Pick(4, 5), 3) {
 		for _, sp := range actSpecs(len(shape)) {
 			if sp.name == "LeakyRelu(0.01)" || sp.name == "LeakyRelu(1)" {
 				continue
@@ -40,7 +40,7 @@ func runC15(c *fw.Ctx) {
 		}
 	}
 	// ---- (ii) interior inputs ----
-	for i := 0; i < c.Pick(1500, 25000); i++ {
+	for i := 0; i < c.Pick(6000, 150000); i++ {
 		c.Case(func(k *fw.K) { c15Upstream(k) })
 	}
 }
